@@ -44,6 +44,7 @@ type State struct {
 	calls  []CallRec // ghost log of calls (contracted / intrinsic externals of interest)
 	dead   bool
 	loopMark int // index into calls at the last loop entry
+	retInLoops []int // ordinals of the loops whose body contains the return that ended this path
 	panics string // non-empty: path ended in panic (reason)
 	trace  []string
 }
@@ -53,7 +54,7 @@ func newState() *State {
 }
 
 func (s *State) clone() *State {
-	n := &State{cells: make(map[int]Val, len(s.cells)), worlds: make(map[int]*World, len(s.worlds)), dead: s.dead, panics: s.panics, loopMark: s.loopMark}
+	n := &State{cells: make(map[int]Val, len(s.cells)), worlds: make(map[int]*World, len(s.worlds)), dead: s.dead, panics: s.panics, loopMark: s.loopMark, retInLoops: s.retInLoops}
 	for k, v := range s.cells {
 		n.cells[k] = v
 	}
